@@ -19,7 +19,7 @@ import z3
 from .. import driver, extract, field, game, signs
 from ..symrt import Ctx, active, term
 from ..specs import weng_lin as WS
-from .computil import (ComputeRun, compositions, field_rec, ge_rec, generic_lemma, link, ranks_of, scale_of, size_vectors)
+from .computil import (CodeWorld, ComputeRun, compositions, field_rec, ge_rec, generic_lemma, link, ranks_of, scale_of, size_vectors)
 from . import c01
 
 PROP = "C05"
@@ -44,9 +44,8 @@ def unit_compute(model, sizes):
             recs.append(driver.rec(f"C05/{model}/_compute/returns@{shape}", "refuted", "explorer", 0, fn=fn, shape=shape, note=repr(run.out[1]), replay=rp))
             continue
         ok, note, t, spec, det, P = link(run, which=("mu",))
-        recs.append(field_rec(f"C05/{model}/_compute/mu-equals-published-update@{shape}", ok, "field", note, t, fn, shape, rp))
-        # same direction, proportional to own variance: (mu'_j - mu_j) sigma_k^2 == (mu'_k - mu_k) sigma_j^2
         post = run.post()
+        # same direction, proportional to own variance: (mu'_j - mu_j) sigma_k^2 == (mu'_k - mu_k) sigma_j^2
         t0 = time.time()
         okd = True
         for i in range(n):
@@ -58,128 +57,124 @@ def unit_compute(model, sizes):
         if any(s > 1 for s in sizes):
             recs.append(field_rec(f"C05/{model}/_compute/same-direction@{shape}", okd, "field", "", time.time() - t0, fn, shape, rp))
         SP = signs.SignProver(run.hyps, run.facts)
+
+        def alone(i, want, nm):
+            """fast path: the code's mu equals mu + share*Omega_i of the published update (exact), whose Omega_i
+            is signed structurally; otherwise directly on the code's own result terms"""
+            t0 = time.time()
+            if ok and SP.prove(term(det["omega"][i]), want):
+                return driver.rec(f"C05/{model}/_compute/{nm}@{shape}", "discharged", "field+split+z3", time.time() - t0, fn=fn, shape=shape, mode="R")
+            res_all = None
+            for j in range(sizes[i]):
+                with active(run.ctx):
+                    d = term(post[i][j][0] - run.prior[i][j][0])
+                res = P.prove_ge(d, z3.RealVal(0)) if want == "ge" else P.prove_ge(z3.RealVal(0), d)
+                if res[0] != "discharged":
+                    res_all = res
+                    break
+                res_all = res
+            return ge_rec(f"C05/{model}/_compute/{nm}@{shape}", res_all, fn, shape, rp)
         if blocks[0] == 1:
-            t0 = time.time()
-            o = SP.prove(term(det["omega"][0]), "ge")
-            recs.append(driver.rec(f"C05/{model}/update/first-alone@{shape}", "discharged" if o else "open", "split+z3", time.time() - t0,
-                                   fn=fn, shape=shape, mode="R", replay=None if o else rp))
+            recs.append(alone(0, "ge", "first-alone"))
         if blocks[-1] == 1:
-            t0 = time.time()
-            o = SP.prove(term(det["omega"][n - 1]), "le")
-            recs.append(driver.rec(f"C05/{model}/update/last-alone@{shape}", "discharged" if o else "open", "split+z3", time.time() - t0,
-                                   fn=fn, shape=shape, mode="R", replay=None if o else rp))
-            if blocks == (1,) * n:
+            recs.append(alone(n - 1, "le", "last-alone"))
+            if blocks == (1,) * n and ok:
                 wrong = SP.prove(term(det["omega"][n - 1]), "gt")
-                recs.append(driver.rec(f"C05/{model}/update/canary-last-gains@{shape}", "discharged" if wrong else "refuted", "split+z3", 0,
+                recs.append(driver.rec(f"C05/{model}/_compute/canary-last-gains@{shape}", "discharged" if wrong else "refuted", "split+z3", 0,
                                        kind="canary", fn=fn, shape=shape, replay=_rp(model, sizes, ranks, "canary")))
     return recs
 
 
-class SpecWorld:
-    """symbols + the published update evaluated for several outcomes in one context"""
+def exp_mono(W):
+    """A-exp monotonicity instances for the exp applications of the runs"""
+    apps = W.apps("exp")
+    out, seen = [], set()
+    for (a, xa), (b, xb) in itertools.permutations(apps, 2):
+        k = (a.get_id(), b.get_id())
+        if k in seen or z3.eq(a, b):
+            continue
+        seen.add(k)
+        out.append(z3.Implies(xa >= xb, a >= b))
+    return out
 
-    def __init__(self, model, sizes, identical=False):
-        self.model, self.sizes = model, sizes
-        self.ctx = Ctx("R")
-        with active(self.ctx):
-            c = self.ctx
-            self.beta, self.kappa = c.real("m_beta"), c.real("m_kappa")
-            c.assume(self.beta.t > 0)
-            c.assume(self.kappa.t > 0)
-            c.assume(self.kappa.t <= 1)
-            self.prior = []
-            for i, n in enumerate(sizes):
-                row = []
-                for j in range(n):
-                    ii = 0 if identical else i
-                    mu, sg = c.real(f"mu_{ii}_{j}"), c.real(f"sg_{ii}_{j}")
-                    c.assume(sg.t > 0)
-                    row.append((mu, sg))
-                self.prior.append(row)
-            self.X = game.SymX(game.tm_contract_functions())
 
-    def outcome(self, ranks):
-        det = {}
-        with active(self.ctx):
-            WS.posterior(self.model, self.prior, list(ranks), self.beta, self.kappa, self.X, pair_scale=scale_of(self.model), details=det)
-        return det
-
-    def prover(self):
-        return field.Prover(self.ctx.hyps(), list(self.ctx.facts.values()))
-
-    def exp_mono(self):
-        apps = list(self.ctx.apps.get("exp", {}).values())
-        out = []
-        for (a, xa), (b, xb) in itertools.permutations(apps, 2):
-            out.append(z3.Implies(xa >= xb, a >= b))
-        return out
-
-    def tm_instances(self, P):
-        """instances of the relational contract clauses of v / vt whose
-        arguments match canonically"""
-        out = []
-        vs = list(self.ctx.apps.get("v", {}).values())
-        vts = list(self.ctx.apps.get("vt", {}).values())
-        for (b, xb, tb) in vts:
-            out.append(z3.Implies(xb >= 0, b <= tb))
-            out.append(z3.Implies(xb <= 0, b >= -tb))
-            for (a, xa, ta) in vs:
-                if not P.prove_eq(ta, tb)[0]:
-                    continue
-                if P.prove_eq(xa, xb)[0]:
-                    out.append(a >= b)           # v(x,t) >= vt(x,t)
-                if P.prove_eq(xa + xb, z3.RealVal(0))[0]:
-                    out.append(b >= -a)          # vt(x,t) >= -v(-x,t)
-        return out
+def tm_instances(W, P):
+    """instances of the relational contract clauses of v / vt whose arguments match canonically"""
+    out = []
+    vs = {a.get_id(): (a, x, t) for (a, x, t) in W.apps("v")}
+    vts = {a.get_id(): (a, x, t) for (a, x, t) in W.apps("vt")}
+    for (b, xb, tb) in vts.values():
+        out.append(z3.Implies(xb >= 0, b <= tb))
+        out.append(z3.Implies(xb <= 0, b >= -tb))
+        for (a, xa, ta) in vs.values():
+            if not P.prove_eq(ta, tb)[0]:
+                continue
+            if P.prove_eq(xa, xb)[0]:
+                out.append(a >= b)           # v(x,t) >= vt(x,t)
+            if P.prove_eq(xa + xb, z3.RealVal(0))[0]:
+                out.append(b >= -a)          # vt(x,t) >= -v(-x,t)
+    return out
 
 
 def unit_two_team(model, sizes):
+    """three executions of the real _compute on one symbolic two-team game: team 0 wins / draw / loses"""
     recs = []
     shape = f"sizes={sizes}"
     fn = f"{model}._compute"
-    W = SpecWorld(model, sizes)
+    W = CodeWorld(model, sizes)
     win, draw, loss = W.outcome([0, 1]), W.outcome([0, 0]), W.outcome([1, 0])
     P = W.prover()
-    extra = W.exp_mono() + (W.tm_instances(P) if model.startswith("Thurstone") else [])
+    tmm = model.startswith("Thurstone")
+    extra = exp_mono(W) + (tm_instances(W, P) if tmm else [])
     rp = _rp(model, sizes, [0, 1])
-    th0, th1 = term(win["theta"][0]), term(win["theta"][1])
+    with active(win.ctx):
+        th = [0, 0]
+        sv = [0, 0]
+        for i in (0, 1):
+            for (mu, sg) in win.prior[i]:
+                th[i] = th[i] + mu
+                sv[i] = sv[i] + sg * sg
+        c = scale_of(model) * game.SymX(win.tm).sqrt(sv[0] + sv[1] + 2 * win.params["beta"] * win.params["beta"])
+        th0, th1 = term(th[0]), term(th[1])
+    zero = z3.RealVal(0)
     for i, (better, worse) in ((0, (win, loss)), (1, (loss, win))):
-        o = lambda d: term(d["omega"][i])
-        zero = z3.RealVal(0)
-        for nm, a, b, hy in (("win>=draw", o(better), o(draw), ()), ("draw>=loss", o(draw), o(worse), ()),
-                             ("win>=0", o(better), zero, ()), ("loss<=0", zero, o(worse), ())):
-            res = P.prove_ge(a, b, extra_hyps=list(extra) + list(hy))
-            recs.append(ge_rec(f"C05/{model}/update/two-team/{nm}[team{i}]@{shape}", res, fn, shape, rp))
-        # a draw never raises the stronger team / lowers the weaker one (TM: beyond (s_i/c) * t)
-        with active(W.ctx):
-            if model.startswith("Thurstone"):
-                pr = draw["pairs"][(i, 1 - i)]
-                margin = (draw["s"][i] / pr["c"]) * pr["t"]
-            else:
-                margin = 0
-        stronger = (th0 >= th1) if i == 0 else (th1 >= th0)
-        weaker = (th0 <= th1) if i == 0 else (th1 <= th0)
-        m = term(margin)
-        res = P.prove_ge(m, o(draw), extra_hyps=list(extra) + [stronger])
-        recs.append(ge_rec(f"C05/{model}/update/two-team/draw-does-not-raise-stronger[team{i}]@{shape}", res, fn, shape, rp))
-        res = P.prove_ge(o(draw), -m, extra_hyps=list(extra) + [weaker])
-        recs.append(ge_rec(f"C05/{model}/update/two-team/draw-does-not-lower-weaker[team{i}]@{shape}", res, fn, shape, rp))
+        for j in range(sizes[i]):
+            d = lambda run: W.dmu(run, i, j)
+            for nm, a, b in (("win>=draw", d(better), d(draw)), ("draw>=loss", d(draw), d(worse)),
+                             ("win>=prior", d(better), zero), ("prior>=loss", zero, d(worse))):
+                res = P.prove_ge(a, b, extra_hyps=list(extra))
+                recs.append(ge_rec(f"C05/{model}/_compute/two-team/{nm}[team{i},player{j}]@{shape}", res, fn, shape, rp))
+            # a draw never raises the stronger team / lowers the weaker one
+            # (TM: beyond share * (s_i/c_iq) * (kappa/c_iq), c_iq the documented pair scale)
+            with active(win.ctx):
+                if tmm:
+                    sg = win.prior[i][j][1]
+                    margin = term((sg * sg / sv[i]) * (sv[i] / c) * (win.params["kappa"] / c))
+                else:
+                    margin = zero
+            stronger = (th0 >= th1) if i == 0 else (th1 >= th0)
+            weaker = (th0 <= th1) if i == 0 else (th1 <= th0)
+            res = P.prove_ge(margin, d(draw), extra_hyps=list(extra) + [stronger])
+            recs.append(ge_rec(f"C05/{model}/_compute/two-team/draw-does-not-raise-stronger[team{i},player{j}]@{shape}", res, fn, shape, rp))
+            res = P.prove_ge(d(draw), -margin, extra_hyps=list(extra) + [weaker])
+            recs.append(ge_rec(f"C05/{model}/_compute/two-team/draw-does-not-lower-weaker[team{i},player{j}]@{shape}", res, fn, shape, rp))
     # canary: "a draw never lowers team 0" is false when team 0 is the stronger one
-    res = P.prove_ge(term(draw["omega"][0]), z3.RealVal(0), extra_hyps=list(extra))
-    recs.append(driver.rec(f"C05/{model}/update/two-team/canary-draw-never-lowers@{shape}", "discharged" if res[0] == "discharged" else "refuted", res[1], res[3],
+    res = P.prove_ge(W.dmu(draw, 0), zero, extra_hyps=list(extra))
+    recs.append(driver.rec(f"C05/{model}/_compute/two-team/canary-draw-never-lowers@{shape}", "discharged" if res[0] == "discharged" else "refuted", res[1], res[3],
                            kind="canary", fn=fn, shape=shape, replay=None))
     return recs
 
 
 def unit_swap_up(model, n):
-    """no ties: team b takes the place of a better-placed team a (and a takes b's)"""
+    """no ties: team b takes the place of a better-placed team a (and a takes b's);
+    both outcomes are executions of the real _compute on the same symbolic game"""
     recs = []
     sizes = (1,) * n if n > 2 else (2, 1)
     shape = f"sizes={sizes}"
     fn = f"{model}._compute"
-    W = SpecWorld(model, sizes)
+    W = CodeWorld(model, sizes)
     base = list(range(n))                # team k at place k
-    d0 = W.outcome(base)
+    r0 = W.outcome(base)
     outs = {}
     for a in range(n):
         for b in range(a + 1, n):
@@ -187,11 +182,10 @@ def unit_swap_up(model, n):
             r2[a], r2[b] = base[b], base[a]
             outs[(a, b)] = W.outcome(r2)
     P = W.prover()
-    for a in range(n):
-        for b in range(a + 1, n):
-            d1 = outs[(a, b)]
-            res = P.prove_ge(term(d1["omega"][b]), term(d0["omega"][b]))
-            recs.append(ge_rec(f"C05/{model}/update/swap-up[{b}->{a}]@{shape}", res, fn, shape, _rp(model, sizes, base)))
+    for (a, b), r1 in outs.items():
+        for j in range(sizes[b]):
+            res = P.prove_ge(W.dmu(r1, b, j), W.dmu(r0, b, j))
+            recs.append(ge_rec(f"C05/{model}/_compute/swap-up[{b}->{a},player{j}]@{shape}", res, fn, shape, _rp(model, sizes, base)))
     return recs
 
 
@@ -200,13 +194,14 @@ def unit_identical(model, n):
     sizes = (2,) * n
     shape = f"n={n},identical teams of 2"
     fn = f"{model}._compute"
-    W = SpecWorld(model, sizes, identical=True)
-    d = W.outcome(list(range(n)))
+    W = CodeWorld(model, sizes, identical=True)
+    r = W.outcome(list(range(n)))
     P = W.prover()
     strict = model in ("PlackettLuce", "BradleyTerryFull", "ThurstoneMostellerFull")
     for k in range(n - 1):
-        res = P.prove_ge(term(d["omega"][k]), term(d["omega"][k + 1]), strict=strict)
-        recs.append(ge_rec(f"C05/{model}/update/identical-teams-ordered-by-place[{k}>{k + 1}]@{shape}", res, fn, shape, _rp(model, sizes, list(range(n)))))
+        for j in range(2):
+            res = P.prove_ge(W.dmu(r, k, j), W.dmu(r, k + 1, j), strict=strict)
+            recs.append(ge_rec(f"C05/{model}/_compute/identical-teams-ordered-by-place[{k}>{k + 1},player{j}]@{shape}", res, fn, shape, _rp(model, sizes, list(range(n)))))
     return recs
 
 
